@@ -96,6 +96,9 @@ def h_converge(pa: int, pb: int, pc: int, pd: int, ta: int, tb: int, tc: int, td
                 env.symlink(ws + "/nowhere", ws + "/lnk")
                 if prior.get("a") == "dir":
                     env.symlink("../nowhere2", ws + "/a/lnk2")
+            if cube("dirlink", False):  # a symlink to a directory outside the workspace (holding user data) left in the workspace
+                env.write(env.p("outside", "precious"), b"user data outside the workspace")
+                env.symlink(env.p("outside"), ws + "/lnk")
             for k, kind in target.items():
                 if kind == "file" and not unavail.get(k):
                     env.write(cache.oid_to_path(hashlib.md5(TGT[k]).hexdigest()), TGT[k], mode=0o444)
@@ -162,6 +165,11 @@ def h_converge(pa: int, pb: int, pc: int, pd: int, ta: int, tb: int, tc: int, td
                 extra = sorted(set(files_after) - tfiles)
                 if extra:
                     violation("non-target-file-left", extra)
+                if cube("dirlink", False):
+                    if not env.exists(env.p("outside", "precious")) or env.read(env.p("outside", "precious")) != b"user data outside the workspace":
+                        violation("data-outside-the-workspace-destroyed", "outside/precious")
+                    if env.exists(ws + "/lnk"):
+                        violation("non-target-path-left", "lnk (symlink to a directory)")
                 strays = sorted(k for k in after if k.endswith(".tmp"))
                 if strays:
                     violation("stray-temp-file-left", strays)
